@@ -279,6 +279,11 @@ def blind_spot_batches(rng, tier):
     for a, b, d in prod(VAR, VAR, VAR):
         for c in (CATS3 if thorough else [r.choice(CATS3)]):
             ops.append(f"v.apply3 {c} {a} {b} {d} {rtable(r, D, 27)}")
+    if thorough:
+        for c in ["LR", "RL"]:
+            ops += [f"all9 o.apply2 {c} {a} {b} *" for a, b in prod(OPT, OPT)]
+            ops += [f"all9 o.combine {c} {a} {b} *" for a, b in prod(OPT, OPT)]
+            ops += [f"all9 e.apply2 {c} {a} {b} *" for a, b in prod(EITH, EITH)]
     yield Batch("mixed-value-categories", ops,
                 note="apply/2,3 combine maybe_multi/2,3 either-apply/2,3 variant-apply/2,3 with a different value category per argument "
                      "(all 6 mixed pairs, all 6 L/R mixtures of three) on every input tuple, sampled tables: an argument forwarded with "
@@ -475,8 +480,7 @@ def api_batches(rng, tier):
     cats = CATS if thorough else [r.choice(CATS)]
     ops += [f"m.chain2.o {c} {o} {f} {g}" for c, o, f, g in prod(cats, OPT, T_DO, T_DO)]
     if thorough:
-        c = r.choice(CATS)
-        ops += [f"m.chain2.e {c} {e} {f} {g}" for e, f, g in prod(EITH, T_DE, T_DE)]
+        ops += [f"m.chain2.e {c} {e} {f} {g}" for c, e, f, g in prod(CATS, EITH, T_DE, T_DE)]
     else:
         ops += [f"m.chain2.e {r.choice(CATS)} {r.choice(EITH)} {r.choice(T_DE)} {r.choice(T_DE)}" for _ in range(20000)]
     ops += [f"m.chain0.o {c} {o}" for c, o in prod(CATS, OPT)]
@@ -498,7 +502,7 @@ def api_batches(rng, tier):
             ops.append(f"m.do3.e {c} {e} {rtable(r, ex, 3)} {rtable(r, ex, 9)}")
     ops += [f"m.ret.o {v}" for v in D] + [f"m.ret.e {v}" for v in D]
     yield Batch("api-monad", ops,
-                note="monad::chain (optional: all 64x64 pairs of functions; either: sampled, all 216x216 in the thorough tier), "
+                note="monad::chain (optional: all 64x64 pairs of functions; either: sampled, all 6x216x216x3 in the thorough tier), "
                      "chain without lambdas, monad::do_ with a binary second lambda (all first functions, sampled 9-entry tables), "
                      "tables with throwing entries, return_")
 
